@@ -200,6 +200,9 @@ class PiecewiseConstantBirthDeath(Distribution):
         super().__init__(batch_shape, event_shape, validate_args=validate_args)
 
     def log_q(self, A, B, t, t_i):
+        # B is the pair (1 + B, 1 - B) accumulated in log_p: 1 + B computed from B
+        # loses its digits when B is close to -1
+        one_plus_B, one_minus_B = B
         """Probability density of lineage alive between time t and t_i gives
         rise to observed clade."""
         # log(4e / (e(1+B) + (1-B))^2) with e=exp(x), written so that it does
@@ -209,14 +212,15 @@ class PiecewiseConstantBirthDeath(Distribution):
         x_neg = x.clamp(max=0.0)
         return math.log(4.0) + torch.where(
             x > 0.0,
-            -x_pos - 2.0 * torch.log((1.0 + B) + torch.exp(-x_pos) * (1.0 - B)),
-            x_neg - 2.0 * torch.log(torch.exp(x_neg) * (1.0 + B) + (1.0 - B)),
+            -x_pos - 2.0 * torch.log(one_plus_B + torch.exp(-x_pos) * one_minus_B),
+            x_neg - 2.0 * torch.log(torch.exp(x_neg) * one_plus_B + one_minus_B),
         )
 
     def p0(self, A, B, t, t_i):
         # in terms of e^{-A(t - t_i)}: no overflow when A (t - t_i) is large
+        one_plus_B, one_minus_B = B
         e = torch.exp(-A * (t - t_i))
-        ratio = ((1.0 + B) - e * (1.0 - B)) / ((1.0 + B) + e * (1.0 - B))
+        ratio = (one_plus_B - e * one_minus_B) / (one_plus_B + e * one_minus_B)
         return (self.lambda_ + self.mu + self.psi - A * ratio) / (2.0 * self.lambda_)
 
     def log_p(self, t, t_i, rho):
@@ -230,6 +234,8 @@ class PiecewiseConstantBirthDeath(Distribution):
             + 4.0 * self.lambda_ * self.psi
         )
         B = torch.zeros_like(self.mu, dtype=self.mu.dtype)
+        one_plus_B = torch.zeros_like(B)
+        one_minus_B = torch.zeros_like(B)
         p = torch.ones(self.mu.shape[:-1] + (m + 1,), dtype=self.mu.dtype)
         # 1 - p, accumulated from non-negative terms only (1 - p computed from p
         # loses all its digits when the survival probability is small)
@@ -251,20 +257,20 @@ class PiecewiseConstantBirthDeath(Distribution):
         inv_2lambda = 1.0 / (2.0 * self.lambda_)
 
         for i in torch.arange(m - 1, -1, step=-1):
-            B[..., i] += (
-                (1.0 - 2.0 * (1.0 - rho[..., i]) * p[..., i + 1].clone())
-                * self.lambda_[..., i]
-                + self.mu[..., i]
-                + self.psi[..., i]
-            ) / A[..., i]
-            one_plus_Bi = 1.0 + B[..., i]
-            term = exp_A_term[..., i] * (1.0 - B[..., i])
+            # probability of being sampled at or after the end of the epoch
+            r = rho[..., i] + (1.0 - rho[..., i]) * one_minus_p[..., i + 1].clone()
+            # 1 - 2 (1 - rho) p = 2 r - 1: B, 1 + B and 1 - B from r, without
+            # going through p (1 - p is lost in p when it is below 1e-16)
+            two_r_lambda = 2.0 * r * self.lambda_[..., i]
+            B[..., i] += (two_r_lambda - x[..., i]) / A[..., i]
+            one_plus_B[..., i] = (two_r_lambda + A_minus_x[..., i]) / A[..., i]
+            one_minus_B[..., i] = (A_plus_x[..., i] - two_r_lambda) / A[..., i]
+            one_plus_Bi = one_plus_B[..., i]
+            term = exp_A_term[..., i] * one_minus_B[..., i]
             p[..., i] *= (
                 sum_term[..., i]
                 - A[..., i] * (one_plus_Bi - term) / (one_plus_Bi + term)
             ) * inv_2lambda[..., i]
-            # probability of being sampled at or after the end of the epoch
-            r = rho[..., i] + (1.0 - rho[..., i]) * one_minus_p[..., i + 1].clone()
             e = exp_A_term[..., i]
             one_minus_e = -torch.expm1(-A[..., i] * (t[..., i] - t_i[..., i]))
             one_minus_p[..., i] = (
@@ -276,7 +282,7 @@ class PiecewiseConstantBirthDeath(Distribution):
                 + 2.0 * r * self.lambda_[..., i] * one_minus_e
             )
         self._one_minus_p = one_minus_p
-        return p, A, B
+        return p, A, (one_plus_B, one_minus_B)
 
     def log_prob(self, node_heights: torch.Tensor):
         taxa_shape = node_heights.shape[:-1] + (int((node_heights.shape[-1] + 1) / 2),)
@@ -337,7 +343,7 @@ class PiecewiseConstantBirthDeath(Distribution):
 
         # first term
         log_p = self.log_q(
-            A[..., 0], B[..., 0], torch.zeros_like(times[..., 1]), times[..., 1]
+            A[..., 0], tuple(b[..., 0] for b in B), torch.zeros_like(times[..., 1]), times[..., 1]
         )
         # condition on sampling at least one individual
         if self.survival:
@@ -350,7 +356,7 @@ class PiecewiseConstantBirthDeath(Distribution):
             torch.log(self.lambda_.gather(-1, indices_x))
             + self.log_q(
                 A.gather(-1, indices_x),
-                B.gather(-1, indices_x),
+                tuple(b.gather(-1, indices_x) for b in B),
                 x,
                 torch.gather(times[..., 1:], -1, indices_x),
             )
@@ -376,7 +382,7 @@ class PiecewiseConstantBirthDeath(Distribution):
                 r = self.removal_probability.gather(-1, indices_y)
                 p0 = self.p0(
                     A.gather(-1, indices_y),
-                    B.gather(-1, indices_y),
+                    tuple(b.gather(-1, indices_y) for b in B),
                     torch.gather(times[..., 1:], -1, indices_y),
                     y,
                 )
@@ -388,7 +394,7 @@ class PiecewiseConstantBirthDeath(Distribution):
                     torch.log(self.psi.gather(-1, indices_y) * (r + (1.0 - r) * p0))
                     - self.log_q(
                         A.gather(-1, indices_y),
-                        B.gather(-1, indices_y),
+                        tuple(b.gather(-1, indices_y) for b in B),
                         y,
                         torch.gather(times[..., 1:], -1, indices_y),
                     ),
@@ -400,7 +406,7 @@ class PiecewiseConstantBirthDeath(Distribution):
                     self.psi.log().gather(-1, indices_y)
                     - self.log_q(
                         A.gather(-1, indices_y),
-                        B.gather(-1, indices_y),
+                        tuple(b.gather(-1, indices_y) for b in B),
                         y,
                         torch.gather(times[..., 1:], -1, indices_y),
                     ),
@@ -418,7 +424,7 @@ class PiecewiseConstantBirthDeath(Distribution):
             log_p += (
                 ni
                 * (
-                    self.log_q(A[..., 1:], B[..., 1:], times[..., 1:-1], times[..., 2:])
+                    self.log_q(A[..., 1:], tuple(b[..., 1:] for b in B), times[..., 1:-1], times[..., 2:])
                     + torch.log(1.0 - rho[..., :-1])
                 )
             ).sum(-1)
@@ -431,10 +437,10 @@ class PiecewiseConstantBirthDeath(Distribution):
 
         if self.removal_probability is not None and m > 1:
             r = self.removal_probability.gather(-1, indices_y)[..., 1:]
-            p0 = self.p0(A[..., 1:], B[..., 1:], times[..., 1:-1], times[..., 2:])
+            p0 = self.p0(A[..., 1:], tuple(b[..., 1:] for b in B), times[..., 1:-1], times[..., 2:])
             log_p += (
                 r[..., 0]
-                * self.log_q(A[..., 1:], B[..., 1:], times[..., 1:-1], times[..., 2:])
+                * self.log_q(A[..., 1:], tuple(b[..., 1:] for b in B), times[..., 1:-1], times[..., 2:])
                 + torch.log(1.0 - r[..., 1:])
                 + (N[..., :-1] - r[..., 0])
                 * torch.log(r[..., 1:] + (1 - r[..., 1:]) * p0)
